@@ -906,7 +906,15 @@ func c01ElisionPredicate(p *Program, r *Report) {
 			return ""
 		}
 		if sel := info.Selections[se]; sel != nil && sel.Kind() == types.FieldVal {
-			if _, isIdent := ast.Unparen(se.X).(*ast.Ident); isIdent {
+			// the field of one element: col.F, cols[i].F, (*col).F
+			switch x := ast.Unparen(se.X).(type) {
+			case *ast.Ident:
+				return sel.Obj().Name()
+			case *ast.IndexExpr:
+				if _, ok := ast.Unparen(x.X).(*ast.Ident); ok {
+					return sel.Obj().Name()
+				}
+			case *ast.StarExpr:
 				return sel.Obj().Name()
 			}
 		}
